@@ -14,7 +14,7 @@ RULE = ('every string of length <= 3 [quick: length 3 only in 5 of the 17 positi
         'plus 30 payloads (Python expressions, statements after a newline, engine/API names, dunder names, each carrying '
         'a unique marker) as a quoted atom in EVERY syntactic position (clause-head name - also in a parenthesised or operator head -, body-goal name, head argument, '
         'goal argument, functor name, list element, directive argument, both sides of =), and 288 generated break-out attempts (quote of either kind + code + closers + comment tail, with and without the other kind of quote), and every hostile identifier as '
-        'a variable name in head and body; goals named like the compiler\'s internal markers ($CUTIF, ...) with hostile arguments. For each output: (i) provenance - the marker occurs only inside constants, '
+        'a variable name in head and body; goals named like the compiler\'s internal markers ($CUTIF, ...) and like EVERY short string literal found in the source of the compiler modules, with hostile arguments. For each output: (i) provenance - the marker occurs only inside constants, '
         'clause-local names or a function name that is an identifier; (ii) reference closure - module body is function '
         'definitions only, no Attribute/Import/Lambda/Global/class/decorator/default, every name read is local or an '
         'engine API name, no API name is assigned; (iii) dynamic - the output is loaded with __builtins__ replaced by a '
@@ -55,6 +55,28 @@ BREAKOUTS = _breakouts()
 BREAKOUTS += ['coding:utf_7 a+ACc-,zq7)): #', 'coding=utf-7 a+ACc-))), zq7 #', '-*- coding: utf_7 -*- +ACcAKQApACk-: zq7 #',
               'coding:utf_16 a', 'coding:rot13 n', 'coding:unicode_escape a\\x27,zq7)): #', 'coding:raw_unicode_escape a\\u0027,zq7)): #']
 INTERNAL_NAMES = ['$CUTIF', '$cutif', '$CUT', '$BREAK', '$VAR', 'cutIf1', 'doBreak', '$CUTIF_1', '$IF', '$label']
+def names_in_compiler_source():
+    """every short string literal in the source of the compiler modules: if the compiler recognises
+    some goal, functor or atom by NAME (an internal marker, a keyword), the name is one of these"""
+    import ast
+    out = []
+    d = os.path.join(impl.REPO, 'src', 'yldprolog')
+    for fn in sorted(os.listdir(d)):
+        if not fn.endswith('.py') or fn in ('prologParser.py', 'prologLexer.py', 'prologVisitor.py', 'prologListener.py', 'engine.py'):
+            continue
+        try:
+            tree = ast.parse(open(os.path.join(d, fn), encoding='utf8').read())
+        except (SyntaxError, OSError):
+            continue
+        for node in ast.walk(tree):
+            if isinstance(node, ast.Constant) and isinstance(node.value, str):
+                v = node.value
+                if 0 < len(v) <= 16 and '\n' not in v and '\\' not in v and ' ' not in v and v not in out:
+                    out.append(v)
+    return out
+
+
+HARVEST_ARGS = ['x', 'zq7.__class__', "zq7'", 'zq7\nimport os', 'lbl']
 INTERNAL_TEMPLATES = ['p :- %n(%s), q.', 'p :- q, %n(%s).', 'p :- %n(%s).', 'p :- ( a -> %n(%s) ; b ).', 'p :- %n(%s, b), q.',
                       'p :- ( %n(%s) -> a ; b ), c.', 'p :- \\+ %n(%s), q.', 'p(X) :- %n(X, %s), q(X).']
 HOSTILE_VARS = ['ATOM_NIL', 'True', 'False', 'None', 'Query', 'Unify', 'L1', 'Arg1', 'DoBreak', 'CutIf1', '__builtins__',
@@ -459,6 +481,19 @@ def run_shard(spec):
                         with watchdog(60):
                             res = check_program(text)
                         fold((4, idx), res, {'text': text}, text, 'internal-goal-name')
+            # the same with every name the compiler's own source mentions, a few hostile arguments
+            for nm in names_in_compiler_source():
+                if nm in INTERNAL_NAMES or quote(nm) is None:
+                    continue
+                for tmpl in INTERNAL_TEMPLATES:
+                    for s_ in HARVEST_ARGS:
+                        idx += 1
+                        if idx % n != k:
+                            continue
+                        text = tmpl.replace('%n', quote(nm)).replace('%s', quote(s_))
+                        with watchdog(60):
+                            res = check_program(text)
+                        fold((5, idx), res, {'text': text}, text, 'compiler-source-name-as-goal')
             for vi, v in enumerate(HOSTILE_VARS):
                 for ti, tmpl in enumerate(['p(%s) :- q(%s).', 'p(f(%s)) :- %s = [], q([]).', 'p :- q(%s), r(%s, []).', 'p([%s|T]) :- \\+ q(%s), T = [].',
                                            'p(%s, []).', 'p :- ( q(%s) -> r(%s) ; s([]) ).']):
